@@ -357,6 +357,19 @@ func TestC18_NumberGrammar(t *testing.T) {
 		return true
 	}
 	gen("", 0)
+	// spellings that Go's own number parser accepts but the grammar does not (and a few it does)
+	for _, s := range []string{"Infinity", "-Infinity", "+Infinity", "inf", "-inf", "Inf", "-INF", "NaN", "nan", "-NaN", "0x10", "0X1p4", "-0x1p-2", "1_000", "0b11", "0o17", "1e5", "-1.5E-3", "1.", ".5", "-.5", "+1", "١٢", "1e", "e1", "1e+", "00", "01", "-01", "1.0e01", "1.5e+03", "0.25e01", "1e00", "1 ", " 1", "1\n", "\t1", "1,5", "1e1.5", "--1", "1-", "true", "", "-", ".", "1e999", "-1e999", "123456789012345678901234567890"} {
+		n++
+		if n%nshards != shard {
+			continue
+		}
+		c := c18Case{Fn: "number", Args: []interface{}{s}}
+		m, _ := c18Run(c)
+		rec.Case(s, true, func() interface{} { return c })
+		if m != "" && rec.FailNow(c, m) >= 8 {
+			return
+		}
+	}
 	rec.Exhaustive("number_like_strings", n)
 	if nshards == 1 {
 		rec.AllExhaustive()
